@@ -90,8 +90,14 @@ impl NoNanos for NaiveDateTime {
     }
 }
 
+static LIGHT: std::sync::atomic::AtomicBool = std::sync::atomic::AtomicBool::new(false);
+
 fn answers_naive(oh: &stream::Oh, t: NaiveDateTime) -> String {
     let state = oh.state(t);
+    if LIGHT.load(Ordering::Relaxed) {
+        // reduced answer for the interpreter (Miri): state and one daily schedule
+        return format!("{state}|{}", fmt_sched(oh.schedule_at(t.date())));
+    }
     let next = match stream::with_day_budget(3_000, || oh.next_change(t)) {
         Ok(Some(x)) => format!("{x:?}"),
         Ok(None) => "budget".to_string(),
@@ -414,6 +420,7 @@ fn seed_of(args: &Args) -> u64 {
 }
 
 pub fn run(args: &Args, rep: &mut Report) {
+    LIGHT.store(extra(args, "light").is_some(), Ordering::Relaxed);
     let mode = extra(args, "mode").unwrap_or("small");
     let n: usize = extra(args, "cases").and_then(|s| s.parse().ok()).unwrap_or(400);
     let allow_tz = extra(args, "tz").map(|s| s != "0").unwrap_or(true);
